@@ -220,8 +220,8 @@ def _gen_expr(rnd, names, depth, must=None, calls=("min", "max", "abs"), atoms=(
 # the expression tree of (tid, name) is in case["_ast"][tid][name] (dropped from the JSON form).
 
 
-def _tier_ids(comps):
-    ids = ["S", "A"]
+def _tier_ids(comps, g=False):
+    ids = ["S", "A"] + (["G"] if g else [])
     for c in comps:
         ids += [c["name"] + ".X", c["name"] + ".F"]
         for a in c["actions"]:
@@ -231,18 +231,24 @@ def _tier_ids(comps):
     return ids
 
 
-def _skeleton(comps):
+def _skeleton(comps, g=False):
+    """g: the arch also has extra_attributes_for_all_component_models (tier "G"): every component's extra attributes
+    inherit its definitions (evaluated after the arch variables), so it sits between a component's own extra
+    attributes and the arch variables; the arch variables themselves do not see it."""
+    up = (["G"] if g else []) + ["A", "S"]
     tiers = {"S": {"defs": [], "defaults": {}, "parents": []},
              "A": {"defs": [], "defaults": {}, "parents": ["S"]}}
+    if g:
+        tiers["G"] = {"defs": [], "defaults": {}, "parents": ["A", "S"]}
     for c in comps:
         n = c["name"]
-        tiers[n + ".X"] = {"defs": [], "defaults": {}, "parents": ["A", "S"]}
-        tiers[n + ".F"] = {"defs": [], "defaults": dict(COMP_DEFAULTS), "parents": [n + ".X", "A", "S"]}
+        tiers[n + ".X"] = {"defs": [], "defaults": {}, "parents": list(up)}
+        tiers[n + ".F"] = {"defs": [], "defaults": dict(COMP_DEFAULTS), "parents": [n + ".X"] + up}
         for a in c["actions"]:
-            tiers[f"{n}.{a}.T"] = {"defs": [], "defaults": dict(ACT_DEFAULTS), "parents": [n + ".F", n + ".X", "A", "S"]}
-            tiers[f"{n}.{a}.Y"] = {"defs": [], "defaults": {}, "parents": [f"{n}.{a}.T", n + ".F", n + ".X", "A", "S"]}
+            tiers[f"{n}.{a}.T"] = {"defs": [], "defaults": dict(ACT_DEFAULTS), "parents": [n + ".F", n + ".X"] + up}
+            tiers[f"{n}.{a}.Y"] = {"defs": [], "defaults": {}, "parents": [f"{n}.{a}.T", n + ".F", n + ".X"] + up}
         if c.get("spatial"):  # one spatial fan-out object in the component's `spatial` list
-            tiers[n + ".sp.P"] = {"defs": [], "defaults": {}, "parents": [n + ".F", n + ".X", "A", "S"]}
+            tiers[n + ".sp.P"] = {"defs": [], "defaults": {}, "parents": [n + ".F", n + ".X"] + up}
     return tiers
 
 
@@ -311,6 +317,7 @@ def reference(case):
             for name in sorted(own):
                 visit(name, [])
         except _Cycle as c:
+            case["_partial"] = vals  # the tiers before the cyclic one
             return "cycle", [tid] + c.args[0]
         vals[tid] = done
     return "ok", vals
@@ -346,6 +353,31 @@ def _raw(ast, rnd):
     return _render(ast, rnd)
 
 
+# Names the expression evaluator binds before any user definition (accelforge/util/_eval_expressions.py MATH_FUNCS), as
+# read from the source; prebound_names() adds whatever else the tree under test lists (names only, never a value).
+PREBOUND = [
+    "ceil", "comb", "copysign", "fabs", "factorial", "floor", "fmod", "frexp", "fsum", "gcd", "isclose", "isfinite",
+    "isinf", "isnan", "isqrt", "ldexp", "modf", "perm", "prod", "remainder", "trunc", "exp", "expm1", "log", "log1p",
+    "log2", "log10", "pow", "sqrt", "acos", "asin", "atan", "atan2", "cos", "dist", "hypot", "sin", "tan", "degrees",
+    "radians", "acosh", "asinh", "atanh", "cosh", "sinh", "tanh", "erf", "erfc", "gamma", "lgamma", "pi", "e", "tau",
+    "inf", "nan", "abs", "round", "sum", "range", "len", "min", "max", "float", "int", "str", "bool", "list", "tuple",
+    "enumerate", "getcwd", "map",
+]
+_PRE_CACHE = []
+
+
+def prebound_names():
+    if not _PRE_CACHE:
+        names = list(PREBOUND)
+        try:
+            from accelforge.util import _eval_expressions as ee
+            names += sorted(n for n in getattr(ee, "MATH_FUNCS", {}) if isinstance(n, str) and n.isidentifier() and n not in names)
+        except Exception:
+            pass
+        _PRE_CACHE.append(names)
+    return _PRE_CACHE[0]
+
+
 WL_SETS = ("All", "Inputs", "Outputs", "Tensors")
 FUNCS = ("min", "max", "abs", "cf")
 
@@ -356,7 +388,13 @@ def _callable_here(case, tid, own_names):
     return [f for f in FUNCS if f not in seen and (f != "cf" or case.get("cf"))]
 
 
-def gen_case(rnd, size="normal", positive=False, pre=(), wl=None, cf=False):
+def _positive(ast, calls):
+    if "abs" in calls:
+        return ("bin", "+", ("call", "abs", [ast]), ("lit", 1))
+    return ("bin", "+", ("pow", ast, 2), ("lit", 1))  # abs is a user definition here
+
+
+def gen_case(rnd, size="normal", positive=False, pre=(), wl=None, cf=False, g=False):
     """pre: names the expression evaluator pre-binds, used here as names of user definitions; wl: a workload
     description (the arch-level expressions may then use len(<tensor set>)); cf: a custom function cf(x) = x + 3 is
     registered in the Spec's config."""
@@ -364,8 +402,10 @@ def gen_case(rnd, size="normal", positive=False, pre=(), wl=None, cf=False):
     for c in comps:
         if rnd.random() < 0.3:
             c["spatial"] = True
-    case = {"tiers": _skeleton(comps), "comps": comps, "order": _tier_ids(comps), "_ast": {},
+    case = {"tiers": _skeleton(comps, g), "comps": comps, "order": _tier_ids(comps, g), "_ast": {},
             "wrap": rnd.random() < 0.25, "bigint": False}
+    if g:
+        case["g"] = True
     if pre:
         case["pre"] = list(pre)
     if wl:
@@ -398,6 +438,9 @@ def gen_case(rnd, size="normal", positive=False, pre=(), wl=None, cf=False):
         elif kind == "A":
             k = min(budget, rnd.choice([0, 0, 1, 2, 3, 4]))
             names = pick(pool_sa, k, 0.6)
+        elif kind == "G":
+            k = min(budget, rnd.choice([0, 1, 2, 3]))
+            names = pick([n for n in free if not n.startswith("_")], k, 0.5)  # see the note on "_" names in the docstring
         elif kind == "X":
             k = min(budget, rnd.choice([0, 0, 1, 2, 3]))
             names = pick(free, k, 0.6)
@@ -442,7 +485,7 @@ def gen_case(rnd, size="normal", positive=False, pre=(), wl=None, cf=False):
                     ast = _gen_expr(rnd, visible if attempt < 6 else [], rnd.choice([1, 2, 2, 3]), must if attempt < 6 else [],
                                     calls=calls, atoms=atoms)
                 if kind == "P" or (positive and kind in ("F", "T")):
-                    ast = ("bin", "+", ("call", "abs", [ast]), ("lit", 1))
+                    ast = _positive(ast, calls)
                 asts[name] = ast
                 # incremental value, only to keep magnitudes bounded (the check uses reference())
                 case["tiers"][tid]["defs"] = [[n, None] for n in topo[:i + 1]]
@@ -465,8 +508,8 @@ def inject_cycle(rnd, case, kind=None):
 
     def outer_defines(tid, name):
         t = case["tiers"][tid]
-        if name in t["defaults"]:
-            return True
+        if name in t["defaults"] or name in prebound_names() or name in FUNCS:
+            return True  # (a pre-bound name mentioned by its own definition reads the evaluator's binding: excluded)
         return any(name in _names_of(case, p) or name in case["tiers"][p]["defaults"] for p in t["parents"])
 
     chosen = None
@@ -558,7 +601,8 @@ def build(case):
         if case.get("wrap") and c["kind"] == "Memory":
             node = Hierarchical(nodes=[node])
         nodes.append(node)
-    arch = Arch(nodes=nodes, variables={k: v for k, v in T["A"]["defs"]})
+    akw = {"extra_attributes_for_all_component_models": {k: v for k, v in T["G"]["defs"]}} if "G" in T else {}
+    arch = Arch(nodes=nodes, variables={k: v for k, v in T["A"]["defs"]}, **akw)
     kw = {}
     if case.get("wl"):
         from accelforge.frontend.workload import Workload
@@ -574,29 +618,41 @@ def cf(x):
     return x + 3
 
 
-def observe(ev, case):
+def _tier_obj(spec, tid):
+    """The object of the (evaluated or not) Spec that holds the definitions of tier `tid`."""
+    parts = tid.split(".")
+    if tid == "S":
+        return spec.variables
+    if tid == "A":
+        return spec.arch.variables
+    if tid == "G":
+        return spec.arch.extra_attributes_for_all_component_models
+    comp = spec.arch.find(parts[0])
+    if parts[-1] == "P":
+        return comp.spatial[0]
+    if len(parts) == 2:
+        return comp.extra_attributes_for_component_model if parts[1] == "X" else comp
+    act = comp.actions[parts[1]]
+    return act.extra_attributes_for_component_model if parts[2] == "Y" else act
+
+
+def _names_by_tier(case):
+    return {tid: _names_of(case, tid) for tid in case["order"] if case["tiers"][tid]["defs"]}
+
+
+def observe_names(ev, names_by_tier):
     out = {}
-    for tid in case["order"]:
-        names = _names_of(case, tid)
-        if not names:
-            continue
-        parts = tid.split(".")
-        if tid == "S":
-            obj, get = ev.variables, lambda o, k: o[k]
-        elif tid == "A":
-            obj, get = ev.arch.variables, lambda o, k: o[k]
+    for tid, names in names_by_tier.items():
+        obj = _tier_obj(ev, tid)
+        if tid.rsplit(".", 1)[-1] in ("S", "A", "G", "X", "Y"):
+            out[tid] = {k: obj[k] for k in names}
         else:
-            comp = ev.arch.find(parts[0])
-            if parts[-1] == "P":
-                obj = comp.spatial[0]
-            elif len(parts) == 2:
-                obj = comp.extra_attributes_for_component_model if parts[1] == "X" else comp
-            else:
-                act = comp.actions[parts[1]]
-                obj = act.extra_attributes_for_component_model if parts[2] == "Y" else act
-            get = (lambda o, k: o[k]) if parts[-1] in ("X", "Y") else (lambda o, k: getattr(o, k))
-        out[tid] = {k: get(obj, k) for k in names}
+            out[tid] = {k: getattr(obj, k) for k in names}
     return out
+
+
+def observe(ev, case):
+    return observe_names(ev, _names_by_tier(case))
 
 
 def _same(got, want):
@@ -716,11 +772,468 @@ def asts_is_big_literal(case, tid, name):
     return a[0] == "lit" and abs(a[1]) > BIG
 
 
+
+# ---------------------------------------------------------------------------------------------- edit histories
+#
+# One Spec object is built, evaluated, edited IN PLACE (attribute / item assignment and deletion on its variables,
+# arch variables, arch-level extra attributes, component extra attributes and fields, action fields and extra
+# attributes, spatial fanout), and evaluated again, several times.  The model of the history is the same `case` dict,
+# mutated by the same edits; after every edit the required values are recomputed from scratch by reference().
+
+def gen_wl(rnd):
+    """A workload of 2-3 Einsums with different numbers of input tensors; counts by construction."""
+    k = rnd.choice([2, 3])
+    einsums, counts = [], {}
+    for i, c in enumerate(rnd.sample([1, 2, 3, 4], k)):
+        ins = sorted(rnd.sample(["I0", "I1", "I2", "I3", "I4"], c))
+        einsums.append(f"T{i}[m] = " + " * ".join(f"{t}[m]" for t in ins))
+        counts[f"T{i}"] = {"All": c + 1, "Tensors": c + 1, "Inputs": c, "Outputs": 1}
+    return {"einsums": einsums, "names": [f"T{i}" for i in range(k)], "counts": counts}
+
+
+def _ctx_of(case, call):
+    """Tensor-set sizes visible to the arch for a call "eval", "eval@E", "costs", "costs@E"."""
+    wl = case.get("wl")
+    if not wl:
+        return None
+    kind, _, en = call.partition("@")
+    if not en and kind == "costs":
+        en = wl["names"][0]  # documented: calculate_component_costs uses the first Einsum when none is given
+    return wl["counts"].get(en) if en else None  # no Einsum: the sets are empty
+
+
+def _snapshot(case):
+    return {tid: {n: r for n, r in case["tiers"][tid]["defs"]} for tid in case["order"]}
+
+
+def _save_all(case):
+    return ({tid: [list(d) for d in case["tiers"][tid]["defs"]] for tid in case["order"]},
+            {tid: dict(case["_ast"][tid]) for tid in case["order"]})
+
+
+def _restore_all(case, sv):
+    for tid in case["order"]:
+        case["tiers"][tid]["defs"] = [list(d) for d in sv[0][tid]]
+        case["_ast"][tid] = dict(sv[1][tid])
+
+
+def _set_def(case, tid, name, ast, rnd):
+    case["_ast"][tid][name] = ast
+    raw = _raw(ast, rnd)
+    for d in case["tiers"][tid]["defs"]:
+        if d[0] == name:
+            d[1] = raw
+            return
+    case["tiers"][tid]["defs"].append([name, raw])
+
+
+def _del_def(case, tid, name):
+    case["tiers"][tid]["defs"] = [d for d in case["tiers"][tid]["defs"] if d[0] != name]
+    del case["_ast"][tid][name]
+
+
+def _state_ok(case):
+    try:
+        st, vals = reference(case)
+    except _Undefined:
+        return False
+    return st == "ok" and all(abs(v) <= LIMIT for t in vals.values() for v in t.values())
+
+
+def _inside(case, tid):
+    """tid and every tier whose expressions can see the names of tid."""
+    return [t for t in case["order"] if t == tid or tid in case["tiers"][t]["parents"]]
+
+
+def _new_ast(rnd, case, tid, name, simple=False):
+    kind = tid.rsplit(".", 1)[-1]
+    asts = case["_ast"][tid]
+    own = [n for n in _names_of(case, tid) if n != name]
+    dep, changed = {name}, True
+    while changed:  # the definitions of this object that use `name` (they must not be used by it)
+        changed = False
+        for n in own:
+            if n not in dep and any(r in dep for r in _refs(asts[n])):
+                dep.add(n)
+                changed = True
+    pre = case.get("pre", ())
+    outer = [n for n in _visible_outer(case, tid) if n not in own and n != name]
+    if kind == "X":
+        outer = [n for n in outer if n in FREE or n in pre]
+    names = [n for n in own if n not in dep] + outer
+    calls = _callable_here(case, tid, own + [name])
+    atoms = [("wl", w) for w in WL_SETS] if (case.get("wl") and tid != "S") else ()
+    if simple or rnd.random() < 0.15:
+        ast = ("lit", rnd.randint(1, 30))
+    else:
+        must = [rnd.choice(names)] if (names and rnd.random() < 0.6) else []
+        ast = _gen_expr(rnd, names, rnd.choice([1, 2, 2, 3]), must, calls=calls, atoms=atoms)
+    if kind == "P" or (case.get("positive") and kind in ("F", "T")):
+        ast = _positive(ast, calls)
+    return ast
+
+
+def _try_def(rnd, case, tid, name):
+    sv = _save_all(case)
+    for attempt in range(6):
+        _set_def(case, tid, name, _new_ast(rnd, case, tid, name, simple=attempt >= 4), rnd)
+        if _state_ok(case):
+            return True
+        _restore_all(case, sv)
+    return False
+
+
+EXTRA_KINDS = ("S", "A", "G", "X", "Y")  # objects that take arbitrary names
+
+
+def _editable(name):
+    # pydantic stores an attribute whose name starts with "_" as a plain instance attribute, not as a definition:
+    # such names cannot be added / changed in place, so the histories leave them alone
+    return not name.startswith("_")
+
+
+def op_set(rnd, case, frozen=()):
+    cand = [(t, n) for t in case["order"] if t not in frozen for n in _names_of(case, t) if _editable(n)]
+    cand = [c for c in cand if c[0] in ("S", "A", "G")] * 3 + cand  # outer definitions reach further
+    if not cand:
+        return None
+    tid, name = rnd.choice(cand)
+    return f"set {tid}:{name}" if _try_def(rnd, case, tid, name) else None
+
+
+def op_add(rnd, case, frozen=()):
+    tids = [t for t in case["order"] if t not in frozen and t.rsplit(".", 1)[-1] != "P"]
+    tid = rnd.choice(tids)
+    kind = tid.rsplit(".", 1)[-1]
+    have = set(_names_of(case, tid))
+    pre = list(case.get("pre", ()))
+    if kind in ("F", "T"):
+        pool = [n for n in case["tiers"][tid]["defaults"] if n not in have]
+    else:
+        pool = [n for n in FREE + pre + (FIELD_VARS if kind in ("S", "A") else []) if n not in have and _editable(n)]
+        # prefer a name that expressions inside already use or that another object defines: the new definition
+        # then takes over (or is shadowed)
+        inside = _inside(case, tid)
+        hot = {r for t in inside for a in case["_ast"][t].values() for r in _refs(a)}
+        hot |= {n for t in case["order"] for n in _names_of(case, t)}
+        if kind == "X":
+            hot = {n for n in hot if n in FREE or n in pre}
+        hotpool = [n for n in pool if n in hot]
+        if hotpool and rnd.random() < 0.7:
+            pool = hotpool
+        called = {f for t in inside for a in case["_ast"][t].values() for f in _calls(a)}
+        if case.get("wl"):
+            called.add("len")
+        pool = [n for n in pool if n not in called]
+    if not pool:
+        return None
+    name = rnd.choice(pool)
+    return f"add {tid}:{name}" if _try_def(rnd, case, tid, name) else None
+
+
+def op_del(rnd, case, frozen=()):
+    cand = []
+    for t in case["order"]:
+        if t in frozen:
+            continue
+        kind = t.rsplit(".", 1)[-1]
+        for n in _names_of(case, t):
+            if kind == "X" and "G" in frozen and "G" in case["tiers"] and n in _names_of(case, "G"):
+                continue  # (an evaluated Spec: the inherited arch-level extra attributes are left alone)
+            if (kind in EXTRA_KINDS and _editable(n)) or (kind in ("F", "T") and n in case["tiers"][t]["defaults"]):
+                cand.append((t, n))
+    rnd.shuffle(cand)
+    for tid, name in cand[:4]:
+        sv = _save_all(case)
+        _del_def(case, tid, name)
+        if _state_ok(case):
+            return f"del {tid}:{name}"
+        _restore_all(case, sv)
+    return None
+
+
+def op_cycle(rnd, case, frozen=()):
+    sv = _save_all(case)
+    cyc = inject_cycle(rnd, case)
+    if cyc is None or cyc["tier"] in frozen or not all(_editable(n) for n in cyc["ring"]) or \
+            _snapshot(case) == {t: {n: r for n, r in sv[0][t]} for t in case["order"]}:
+        _restore_all(case, sv)
+        case.pop("cycle", None)
+        return None
+    try:
+        st = reference(case)[0]
+    except _Undefined:
+        st = None
+    if st != "cycle" or not _only_editable_changes(case, sv):
+        _restore_all(case, sv)
+        case.pop("cycle", None)
+        return None
+    case["_backup"] = sv
+    return f"cycle {cyc['kind']} in {cyc['tier']}"
+
+
+def _only_editable_changes(case, sv):
+    for t in case["order"]:
+        old = {n: r for n, r in sv[0][t]}
+        for n, r in case["tiers"][t]["defs"]:
+            if old.get(n, None) != r and not _editable(n):
+                return False
+    return True
+
+
+def _diff(case, before, rnd):
+    """The in-place operations that turn the definitions `before` into the current ones."""
+    edits = []
+    for tid in case["order"]:
+        kind = tid.rsplit(".", 1)[-1]
+        old, new = before[tid], {n: r for n, r in case["tiers"][tid]["defs"]}
+        for n in old:
+            if n not in new:
+                if kind in EXTRA_KINDS:
+                    edits.append({"tier": tid, "name": n, "op": "del", "via": rnd.choice(["item", "attr"])})
+                else:  # a declared field goes back to its default
+                    edits.append({"tier": tid, "name": n, "op": "set", "raw": case["tiers"][tid]["defaults"][n],
+                                  "via": rnd.choice(["item", "attr"])})
+        for n, r in new.items():
+            if n not in old or old[n] != r or type(old[n]) is not type(r):
+                edits.append({"tier": tid, "name": n, "op": "set", "raw": r, "via": rnd.choice(["item", "attr"])})
+    return edits
+
+
+def _apply(spec, edits):
+    for e in edits:
+        obj = _tier_obj(spec, e["tier"])
+        if e["op"] == "del":
+            if e["via"] == "item":
+                del obj[e["name"]]
+            else:
+                delattr(obj, e["name"])
+        elif e["via"] == "item":
+            obj[e["name"]] = e["raw"]
+        else:
+            setattr(obj, e["name"], e["raw"])
+
+
+def _literalize(case, want):
+    """The definitions of the EVALUATED Spec: every name is its value; component extra attributes also hold the
+    arch-level extra attributes they inherited."""
+    for tid in case["order"]:
+        for d in case["tiers"][tid]["defs"]:
+            d[1] = want[tid][d[0]]
+            case["_ast"][tid][d[0]] = ("lit", d[1])
+    if "G" in case["tiers"]:
+        for tid in case["order"]:
+            if tid.endswith(".X"):
+                have = set(_names_of(case, tid))
+                for n in _names_of(case, "G"):
+                    if n not in have:
+                        case["tiers"][tid]["defs"].append([n, want["G"][n]])
+                        case["_ast"][tid][n] = ("lit", want["G"][n])
+
+
+def _mismatch(got, want, costs):
+    for tid, g in got.items():
+        kind = tid.rsplit(".", 1)[-1]
+        for name, v in g.items():
+            if costs and kind in ("F", "T") and name not in COMP_DEFAULTS:
+                continue  # costs scale area / energy / ...: only the scale factors themselves are compared
+            if not _same(v, want[tid][name]):
+                return ({f"{tid}:{name}": repr(v), "type": type(v).__name__}, {f"{tid}:{name}": want[tid][name], "type": "int"})
+    return None
+
+
+def _inherited(case, want):
+    """Required values of the arch-level extra attributes as seen in every component's extra attributes."""
+    out = {}
+    if "G" in case["tiers"] and _names_of(case, "G"):
+        for tid in case["order"]:
+            if tid.endswith(".X"):
+                have = set(_names_of(case, tid))
+                names = [n for n in _names_of(case, "G") if n not in have]
+                if names:
+                    out[tid] = {n: want["G"][n] for n in names}
+    return out
+
+
+def _is_stale_extras_history(h):
+    return bool(h.get("stale_arch_extras"))
+
+
+CLASSES["C21-arch-extras-cached"] = _is_stale_extras_history
+WITNESS["C21-arch-extras-cached"] = {
+    "build": "Spec(variables={'a': 1}, arch=Arch(variables={'x': 'a+10'}, extra_attributes_for_all_component_models={'t': 'x+a'}, "
+             "nodes=[Memory(name='Mem', area='t+1', leak_power=1, size=8, actions=[read, write with energy=1, throughput=1]), "
+             "Compute(name='MAC', area=1, leak_power=1, actions=[compute])]))",
+    "history": ["evaluate (t = 12, Mem.area = 13)", "spec.variables.a = 5", "evaluate again on the same Spec"],
+}
+
+
+class _Lineage:
+    """What earlier evaluations of the same Spec object (or of copies made from it) have seen: per component and
+    arch-level extra attribute, the values it had.  Only used to decide whether an evaluation belongs to the known
+    class C21-arch-extras-cached (a value differs from an earlier one / the attribute is gone)."""
+
+    def __init__(self):
+        self.seen = {}
+
+    def affected(self, case, want_g):
+        bad = set()
+        for tid in case["order"]:
+            if not tid.endswith(".X"):
+                continue
+            have = set(_names_of(case, tid))
+            for (c, n), vals in self.seen.items():
+                if c == tid and n not in have and (n not in want_g or any(v != want_g[n] for v in vals)):
+                    bad.add(tid.split(".")[0])
+        return bad
+
+    def record(self, case, want_g):
+        for tid in case["order"]:
+            if tid.endswith(".X"):
+                have = set(_names_of(case, tid))
+                for n, v in want_g.items():
+                    if n not in have:
+                        self.seen.setdefault((tid, n), []).append(v)
+
+
+def run_history(rnd, known, case, nsteps, plan=None, allow_switch=True):
+    """Runs one edit history on the real code.  plan: optional list of (edit function, call) for the enumerated core,
+    otherwise the edits are random.  Returns (n_evaluations, known_hits, failure or None, history description)."""
+    import copy
+    from accelforge.util.exceptions import EvaluationError
+    from oracles.common import in_known
+
+    import json
+    hist = {"initial": json.loads(json.dumps(public(case))), "steps": []}
+    n_eval = hits = 0
+    known_open = in_known({"stale_arch_extras": True}, known, CLASSES) == "C21-arch-extras-cached"
+
+    def fail(observed, required, **kw):
+        return {"input": dict(hist), "observed": observed, "required": required, **kw}
+
+    try:
+        spec = build(case)
+    except Exception as ex:
+        return 1, 0, fail(f"constructing the Spec raised {type(ex).__name__}: {str(ex)[:300]}", "a Spec object"), hist
+    lineage = _Lineage()
+    prev = None  # (label, evaluated object, names by tier, required values, costs?, inherited)
+    last_ok = None  # (evaluated object, required values) of the last plain evaluation, for the switch
+    on_evaluated = False
+    wl = case.get("wl")
+    steps = plan if plan is not None else [None] * nsteps
+    for k, planned in enumerate(steps):
+        before = _snapshot(case)
+        ops, switch = [], None
+        if planned is not None:
+            edit, call = planned
+            if edit is not None:
+                ops.append(edit(case))
+        else:
+            frozen = ("G",) if on_evaluated else ()
+            if k > 0 and allow_switch and not case.get("_backup"):
+                r = rnd.random()
+                if r < 0.10:
+                    switch = rnd.choice(["deepcopy", "model_copy(deep=True)"])
+                elif r < 0.20 and last_ok is not None:
+                    switch = "the evaluated Spec"
+            if switch == "the evaluated Spec":
+                _literalize(case, last_ok[1])
+                before = _snapshot(case)
+                frozen = ("G",)
+            if k > 0:
+                if case.get("_backup"):
+                    _restore_all(case, case.pop("_backup"))
+                    case.pop("cycle", None)
+                    ops.append("undo the cycle")
+                    if rnd.random() < 0.3:
+                        ops.append(op_set(rnd, case, frozen))
+                elif rnd.random() < 0.2:
+                    ops.append(op_cycle(rnd, case, frozen))
+                elif rnd.random() < 0.9:
+                    for _ in range(rnd.choice([1, 1, 2, 3])):
+                        ops.append(rnd.choice([op_set, op_set, op_add, op_add, op_del])(rnd, case, frozen))
+            kinds = ["eval", "eval", "costs"] if not (on_evaluated or switch == "the evaluated Spec") else ["eval"]
+            call = rnd.choice(kinds)
+            if wl and rnd.random() < 0.75:
+                call += "@" + rnd.choice(wl["names"])
+        edits = _diff(case, before, rnd)
+        step = {"edits": edits, "ops": [o for o in ops if o], "call": call}
+        if switch:
+            step["continue_on"] = switch
+        hist["steps"].append(step)
+        # ---- the real objects
+        try:
+            if switch == "deepcopy":
+                spec = copy.deepcopy(spec)
+            elif switch == "model_copy(deep=True)":
+                spec = spec.model_copy(deep=True)
+            elif switch == "the evaluated Spec":
+                spec, on_evaluated, prev = last_ok[0], True, None
+                lineage = _Lineage()
+            _apply(spec, edits)
+        except Exception as ex:
+            return n_eval, hits, fail(f"step {k}: the in-place edit raised {type(ex).__name__}: {str(ex)[:300]}", "the edit is accepted"), hist
+        case["_ctx"] = _ctx_of(case, call)
+        status, want = reference(case)
+        kind, _, en = call.partition("@")
+        n_eval += 1
+        try:
+            if kind == "eval":
+                ev = spec._spec_eval_expressions(einsum_name=en or None)
+            else:
+                ev = spec.calculate_component_costs(einsum_name=en or None)
+            exc = None
+        except EvaluationError as ex:
+            ev, exc = None, ex
+        except Exception as ex:
+            return n_eval, hits, fail(f"step {k} ({call}): raised {type(ex).__name__}: {str(ex)[:300]}",
+                                      "EvaluationError" if status == "cycle" else "no exception"), hist
+        label = f"step {k} ({call})"
+        # which components are in the known class at this evaluation
+        want_g = (want if status == "ok" else case.get("_partial", {})).get("G") if "G" in case["tiers"] else None
+        skip_comps = set()
+        if want_g is not None and not on_evaluated:
+            aff = lineage.affected(case, want_g)
+            if aff and known_open:
+                skip_comps = aff
+                hits += 1
+            # (with the class not open the comparison below reports the deviation)
+        last_ok = None
+        if status == "cycle":
+            if exc is None:
+                got = observe(ev, case)
+                return n_eval, hits, fail(f"{label}: returned values {got.get(want[0])}", f"EvaluationError (dependency cycle {want})"), hist
+        else:
+            if exc is not None:
+                return n_eval, hits, fail(f"{label}: raised EvaluationError: {str(exc)[:400]}", "no exception (the definitions are acyclic)"), hist
+            names = {t: ns for t, ns in _names_by_tier(case).items() if t in ("S", "A", "G") or t.split(".")[0] not in skip_comps}
+            inh = {t: v for t, v in _inherited(case, want).items() if t.split(".")[0] not in skip_comps} if not on_evaluated else {}
+            bad = _mismatch(observe_names(ev, names), want, kind == "costs")
+            if bad is None and inh:
+                bad = _mismatch(observe_names(ev, {t: list(v) for t, v in inh.items()}), inh, False)
+                if bad:
+                    bad = ({"inherited " + k2: v for k2, v in bad[0].items()}, bad[1])
+            if bad:
+                return n_eval, hits, fail(bad[0], bad[1], label=label), hist
+            # an earlier result must still show the values it was given
+            if prev is not None:
+                pbad = _mismatch(observe_names(prev[1], prev[2]), prev[3], prev[4])
+                if pbad:
+                    return n_eval, hits, fail({"the result of " + prev[0] + " now shows": pbad[0]}, pbad[1], label=label), hist
+            prev = (label, ev, names, want, kind == "costs")
+            if kind == "eval" and not skip_comps:
+                last_ok = (ev, want)
+        if want_g is not None and not on_evaluated:  # the evaluation got as far as the components (or may have)
+            lineage.record(case, want_g)
+    return n_eval, hits, None, hist
+
+
 # ---------------------------------------------------------------------------------------------- enumerated cores
 
 def _simple_case(tier_defs, asts, mode="eval", **kw):
     comps = [dict(c) for c in COMPS2]
-    case = {"tiers": _skeleton(comps), "comps": comps, "order": _tier_ids(comps), "_ast": {}, "wrap": False,
+    g = bool(kw.get("g"))
+    case = {"tiers": _skeleton(comps, g), "comps": comps, "order": _tier_ids(comps, g), "_ast": {}, "wrap": False,
             "bigint": False, "mode": mode}
     case.update(kw)
     base = {"Mem.F": [("area", 1), ("leak_power", 1), ("size", 8)], "MAC.F": [("area", 1), ("leak_power", 1)],
@@ -854,6 +1367,161 @@ def bigint_cases():
         defs = {"S": [("a", n), ("b", "a - 1")]}
         asts = {("S", "a"): ("lit", n), ("S", "b"): ("bin", "-", ("ref", "a"), ("lit", 1))}
         yield _simple_case(defs, asts)
+
+
+
+# ---------------------------------------------------------------------------------------------- cores of the additions
+
+def _R(n):
+    return ("ref", n)
+
+
+def _L(v):
+    return ("lit", v)
+
+
+def _B(op, a, b):
+    return ("bin", op, a, b)
+
+
+CORE_WL = {"einsums": ["T0[m] = I0[m] * I1[m]", "T1[m] = I0[m] * I2[m] * I3[m]"], "names": ["T0", "T1"],
+           "counts": {"T0": {"All": 3, "Tensors": 3, "Inputs": 2, "Outputs": 1}, "T1": {"All": 4, "Tensors": 4, "Inputs": 3, "Outputs": 1}}}
+
+
+def _case_from_asts(asts, **kw):
+    """asts: {(tid, name): tree} in key order; the text given to the repository is a rendering of the tree."""
+    import random as _r
+    rr = _r.Random(len(asts))
+    defs = {}
+    for (tid, n), a in asts.items():
+        defs.setdefault(tid, []).append((n, _raw(a, rr)))
+    return _simple_case(defs, dict(asts), **kw)
+
+
+def _chain_base(g=False):
+    """One definition chain through every kind of object (a -> b -> x -> w -> area -> energy -> z)."""
+    asts = {
+        ("S", "a"): _L(2), ("S", "b"): _B("+", _R("a"), _L(1)),
+        ("A", "x"): _B("*", _R("b"), _L(2)), ("A", "y"): _L(5), ("A", "nt"): ("wl", "All"),
+        ("Mem.X", "w"): _B("+", _R("x"), _R("a")),
+        ("Mem.F", "area"): _B("+", _R("w"), _L(1)), ("Mem.F", "leak_power"): _B("+", _R("nt"), _L(1)), ("Mem.F", "size"): _L(8),
+        ("Mem.read.T", "energy"): _B("+", _R("area"), _R("x")), ("Mem.read.T", "throughput"): _L(1),
+        ("Mem.read.Y", "z"): _B("+", _R("energy"), _R("w")),
+        ("MAC.X", "m"): _B("+", _R("y"), _R("a")),
+        ("MAC.F", "area"): _B("*", _R("m"), _L(2)), ("MAC.F", "leak_power"): _L(1),
+    }
+    if g:
+        asts[("G", "t")] = _B("+", _R("x"), _R("a"))
+        asts[("G", "t2")] = _B("+", _R("nt"), _L(1))
+        asts[("Mem.X", "w")] = _B("+", _R("x"), _R("t"))
+        asts[("MAC.F", "area")] = _B("+", _B("*", _R("m"), _L(2)), _R("t2"))
+    return asts
+
+
+CHAIN_EDITS = [
+    [("S", "a", _L(3))], [("S", "b", _B("*", _R("a"), _L(5)))], [("S", "c", _B("+", _R("a"), _R("b")))], [("S", "y", _L(70))],
+    [("A", "x", _B("+", _R("a"), _L(100)))], [("A", "a", _L(50))], [("A", "b", _B("+", _R("y"), _L(1)))],
+    [("A", "nt", _B("*", ("wl", "Inputs"), _L(2)))],
+    [("Mem.X", "x", _L(7))], [("Mem.X", "w", _B("*", _R("a"), _L(4)))],
+    [("Mem.F", "area", _B("*", _R("w"), _L(3)))], [("Mem.F", "area_scale", _L(2))], [("Mem.F", "energy_scale", _R("w"))],
+    [("Mem.read.T", "energy", _B("+", _R("x"), _L(1)))], [("Mem.read.T", "energy_scale", _L(3))],
+    [("Mem.read.Y", "z", _B("*", _R("w"), _L(2)))], [("Mem.read.Y", "w", _L(9))],
+    [("MAC.X", "m", _B("+", _R("a"), _R("a")))], [("MAC.X", "y", _L(1))],
+    # dependency cycles (toggled like every other edit: applied again they are taken back)
+    [("S", "a", _R("b"))],
+    [("A", "y", _B("+", _R("x"), _L(1))), ("A", "x", _R("y"))],
+    [("Mem.F", "size", _B("+", _R("area"), _L(1))), ("Mem.F", "area", _R("size"))],
+    [("Mem.X", "w", _R("q")), ("Mem.X", "q", _B("+", _R("w"), _L(1)))],
+    [("Mem.read.T", "energy", _B("+", _R("throughput"), _L(1))), ("Mem.read.T", "throughput", _R("energy"))],
+]
+CHAIN_EDITS_G = [
+    [("G", "t", _L(9))], [("G", "t", _B("*", _R("a"), _L(3)))], [("G", "u", _L(4))], [("S", "a", _L(3))],
+    [("A", "nt", _B("*", ("wl", "Inputs"), _L(2)))], [("Mem.X", "t", _L(1))], [("G", "t2", _L(6))],
+    [("G", "t", _R("t2")), ("G", "t2", _B("+", _R("t"), _L(1)))],
+]
+CALL_PATTERNS = [("eval", "eval"), ("costs", "costs"), ("eval@T1", "eval@T0"), ("eval", "costs@T1"), ("costs@T0", "eval@T1")]
+
+
+def _toggle(base, triples):
+    """An edit function: sets the given definitions, or takes them back if they are already in place."""
+    import random as _r
+
+    def edit(case):
+        on = case["_ast"][triples[0][0]].get(triples[0][1]) == triples[0][2]
+        for tid, n, a in triples:
+            if not on:
+                _set_def(case, tid, n, a, _r.Random(7))
+            elif (tid, n) in base:
+                _set_def(case, tid, n, base[(tid, n)], _r.Random(7))
+            elif n in case["_ast"][tid]:
+                _del_def(case, tid, n)
+        return ("undo " if on else "do ") + "; ".join(f"{t}:{n}" for t, n, _ in triples)
+    return edit
+
+
+def core_history_plans(thorough, g=False):
+    """(case, plan) for: every elementary edit alone under every call pattern, and ordered pairs of elementary edits
+    (all of them in the thorough tier, one in four otherwise)."""
+    edits = CHAIN_EDITS_G if g else CHAIN_EDITS
+    for i, e in enumerate(edits):
+        for c0, c1 in CALL_PATTERNS:
+            base = _chain_base(g)
+            case = _case_from_asts(base, wl=CORE_WL, positive=True, g=g)
+            yield case, [(None, c0), (_toggle(base, e), c1)]
+    calls3 = ["eval", "eval@T0", "costs", "eval@T1", "costs@T1"]
+    for i, e1 in enumerate(edits):
+        for j, e2 in enumerate(edits):
+            if not thorough and (i * 7 + j) % 4:
+                continue
+            base = _chain_base(g)
+            case = _case_from_asts(base, wl=CORE_WL, positive=True, g=g)
+            yield case, [(None, calls3[(i + j) % 5]), (_toggle(base, e1), calls3[(i + 2 * j + 1) % 5]),
+                         (_toggle(base, e2), calls3[(2 * i + j + 2) % 5])]
+
+
+PROBE_TIERS = ["S", "A", "Mem.X", "Mem.F", "Mem.read.T", "Mem.read.Y", "Mem.write.T", "MAC.X", "MAC.F", "MAC.compute.T", "MAC.compute.Y"]
+
+
+def core_prebound_cases(levels, every_costs=3):
+    """Each pre-bound name as a user definition (4 names at a time; one of the four defined by an expression over
+    another, written first) in each kind of object, with the same names defined differently at the spec level, used
+    by compound expressions and by bare mentions in the same object and in every object inside / beside it."""
+    names = prebound_names()
+    idx = 0
+    for lv in levels:
+        for c in range(0, len(names), 4):
+            ch = (names[c:c + 4] + names[:4])[:4]
+            asts = {}
+            if lv != "S":
+                for j, n in enumerate(ch):
+                    asts[("S", n)] = _L(500 + j)
+            asts[(lv, ch[2])] = _B("+", _B("*", _R(ch[0]), _L(3)), _L(1))
+            asts[(lv, ch[0])] = _L(7 + c % 5)
+            asts[(lv, ch[1])] = _L(11 + c % 3)
+            asts[(lv, ch[3])] = _B("+", _R(ch[1]), _R(ch[2]))
+            for tid in PROBE_TIERS + (["G"] if lv == "G" else []):
+                kind = tid.rsplit(".", 1)[-1]
+                if kind in ("F", "T"):
+                    fields = ["area", "leak_power", "size"] if tid == "Mem.F" else ["area", "leak_power"] if kind == "F" else ["energy", "throughput"]
+                    for j, f in enumerate(fields):
+                        asts[(tid, f)] = _B("+", _B("*", _R(ch[(j + c) % 4]), _L(2)), _L(1)) if j % 2 == 0 else _B("+", _R(ch[(j + c) % 4]), _R(ch[(j + c + 1) % 4]))
+                else:
+                    for j, n in enumerate(ch):
+                        asts[(tid, f"p{j}")] = _B("+", _B("*", _R(n), _L(2)), _L(1))
+                    asts[(tid, "r")] = _R(ch[(c // 4) % 4])
+            idx += 1
+            yield _case_from_asts(asts, mode="costs" if idx % every_costs == 0 else "eval", g=(lv == "G"), pre=list(ch))
+
+
+def core_prebound_cycle_cases():
+    for tr in [("e", "pi", "tau"), ("log", "sqrt", "ceil"), ("min", "max", "abs"), ("sum", "round", "gamma"),
+               ("int", "float", "len"), ("inf", "nan", "pow")]:
+        for tid in ("S", "A", "Mem.X"):
+            a, b, c = tr
+            two = {(tid, a): _B("+", _R(b), _L(1)), (tid, b): _B("*", _R(a), _L(2)), (tid, c): _B("+", _R(a), _L(1))}
+            three = {(tid, a): _B("+", _R(b), _L(1)), (tid, c): _B("+", _R(a), _L(1)), (tid, b): _B("*", _R(c), _L(2))}
+            for sh, asts in (("two_feeding", two), ("three", three)):
+                yield _case_from_asts(dict(asts), pre=list(tr), cycle={"kind": sh, "tier": tid})
 
 
 # ---------------------------------------------------------------------------------------------- _get_parsable_field_order
